@@ -334,6 +334,34 @@ def orgDiffers (a b : Option (String × String)) : Bool :=
   | some x, some y => x != y
   | _, _ => true
 
+/-- `strings.Split(s, "/")[0]`: everything before the first '/', the whole string without one -/
+def firstSeg (s : String) : String :=
+  match splitFirst '/' s.toList with
+  | none => s
+  | some (a, _) => String.ofList a
+
+/-- what go-containerregistry makes of a package reference (an oracle supplied by the harness):
+`ref.Context().RegistryStr()` and `ref.Context().RepositoryStr()` -/
+structure Parsed where
+  registry : String
+  repo : String
+  deriving DecidableEq, Repr
+
+/-- the (registry, organisation) pair OrgDiffer compares: the organisation is the first element of
+the repository path -/
+def Parsed.orgKey (x : Parsed) : String × String := (x.registry, firstSeg x.repo)
+
+/-- OrgDiffer.Differs, call by call, over the parser's two answers (none = parse error) -/
+def orgDiffersParsed (a b : Option Parsed) : Bool :=
+  match a with
+  | none => true                                    -- if err != nil { return true }
+  | some x =>
+    match b with
+    | none => true                                  -- if err != nil { return true }
+    | some y =>
+      if x.registry != y.registry then true         -- ca.RegistryStr() != cb.RegistryStr()
+      else firstSeg x.repo != firstSeg y.repo       -- oa != ob
+
 /-- the resources the reconciler hands to the renderer: the revision's own plus those of
 every *other* member of its family whose package is in the same registry and org -/
 def memberResources (p : PR) (members : List PR) : List Resource :=
@@ -383,6 +411,19 @@ def renderRoles (p : PR) (rs : List Resource) : List Role :=
     { name := prov_namePrefix ++ p.name ++ prov_nameSuffixView,
       labels := [(prov_keyAggregateToView, prov_valTrue)],
       rules := withVerbs rules provVerbsView, ctrl := some p.uid },
+    { name := systemRoleName p.name,
+      labels := [(prov_keyProviderName, p.name)],
+      rules := systemRules p sorted, ctrl := some p.uid } ]
+
+/-- RenderClusterRoles after its sort.Slice: the three roles built from the resources in the order
+`sorted` (`renderRoles_ordered`: `renderRoles` is this on `isort resourceLT rs`) -/
+def renderRolesOrdered (p : PR) (sorted : List Resource) : List Role :=
+  [ { name := prov_namePrefix ++ p.name ++ prov_nameSuffixEdit,
+      labels := sortLabels [(prov_keyAggregateToCrossplane, prov_valTrue), (prov_keyAggregateToAdmin, prov_valTrue), (prov_keyAggregateToEdit, prov_valTrue)],
+      rules := withVerbs (groupRules sorted) provVerbsEdit, ctrl := some p.uid },
+    { name := prov_namePrefix ++ p.name ++ prov_nameSuffixView,
+      labels := [(prov_keyAggregateToView, prov_valTrue)],
+      rules := withVerbs (groupRules sorted) provVerbsView, ctrl := some p.uid },
     { name := systemRoleName p.name,
       labels := [(prov_keyProviderName, p.name)],
       rules := systemRules p sorted, ctrl := some p.uid } ]
